@@ -1,6 +1,6 @@
 (* C04 — MRS -> DMRS -> MRS conversion preserves the semantics DMRS can express. *)
 From Coq Require Import List NArith ZArith Bool.
-From PyD Require Import Base.Str Model.Hier Model.Mrs Model.Convert Proofs.ConvertP.
+From PyD Require Import Base.Str Model.Hier Model.Mrs Model.Convert Model.FromDmrs Proofs.ConvertP Proofs.FromDmrsP.
 Import ListNotations.
 
 (* one node per predication, in order *)
@@ -39,3 +39,19 @@ Theorem C04_links_justified : forall m d, dmrs_from_mrs m = COk d ->
     forall l, In l (d_links d) -> link_justified m ids reps l.
 Proof. exact dmrs_links_justified. Qed.
 Print Assumptions C04_links_justified.
+
+(* DMRS -> MRS: one predication per node, in order, with the node's predicate
+   and constant, the label of its scope class and the intrinsic variable given
+   to the node (for a quantifier: to the node it binds); only qeq handle
+   constraints, no individual constraints; a top handle, qeq the label of the
+   top node's scope, exactly when the DMRS has a top.  Holds for every choice of
+   class labels that conjoin() may make. *)
+Theorem C04_from_dmrs : forall d choice m, mrs_from_dmrs d choice = Some m ->
+  exists lq ivs, leqs d = Some lq /\
+    Forall2 (ep_of_node d choice (classes d lq) ivs) (d_nodes d) (m_rels m) /\
+    all_qeq (m_hcons m) /\ m_icons m = [] /\
+    (m_top m = None <-> d_top d = None) /\
+    (forall t, d_top d = Some t -> exists h l, m_top m = Some h /\
+        scope_label d choice (classes d lq) t = Some l /\ In (h, QEQ, l) (m_hcons m)).
+Proof. exact from_dmrs_spec. Qed.
+Print Assumptions C04_from_dmrs.
